@@ -7,7 +7,6 @@ import (
 	"go/ast"
 	"go/token"
 	"go/types"
-	"strings"
 )
 
 func init() { register("C29", checkC29) }
@@ -99,12 +98,35 @@ func checkPipeConsumer(p *Prog, r *Result, a *chanAnalyzer) {
 		r.undecided("H4", key, p.pos(N.Decl), "consumer goroutine of the pipe not found")
 		return
 	}
+	// the reader inside the consumer: the captured variable itself, or the parameter of the immediately-invoked
+	// wrapper literal that receives it as an argument
+	readers := map[types.Object]bool{rdObj: true}
+	if w := consumer.Parent; w != nil && w.Lit != nil && w != pipeFn {
+		pipeFn.inspectBody(func(n ast.Node) bool {
+			c, ok := n.(*ast.CallExpr)
+			if !ok || unparen(c.Fun) != ast.Expr(w.Lit) {
+				return true
+			}
+			i := 0
+			for _, fld := range w.Type.Params.List {
+				for _, nm := range fld.Names {
+					if i < len(c.Args) && pipeFn.objOf(c.Args[i]) == rdObj {
+						readers[w.Pkg.TypesInfo.Defs[nm]] = true
+					}
+					i++
+				}
+			}
+			return true
+		})
+	}
 	// deferred Close/CloseWithError on the reader object among the top-level defers of the consumer
 	released := false
 	for _, st := range consumer.Body.List {
 		if d, ok := st.(*ast.DeferStmt); ok {
-			if sel, ok := unparen(d.Call.Fun).(*ast.SelectorExpr); ok && (sel.Sel.Name == "Close" || sel.Sel.Name == "CloseWithError") && consumer.objOf(sel.X) == rdObj {
-				released = true
+			if sel, ok := unparen(d.Call.Fun).(*ast.SelectorExpr); ok && (sel.Sel.Name == "Close" || sel.Sel.Name == "CloseWithError") {
+				if o := consumer.objOf(sel.X); o != nil && readers[o] {
+					released = true
+				}
 			}
 		}
 	}
@@ -255,20 +277,50 @@ func checkChunker(p *Prog, r *Result) {
 		r.undecided("CH", key, p.pos(fn.Decl), "chunk loop not found")
 		return
 	}
-	// zero-trip possible iff the condition is a bare `idx < len(x)` with idx starting at 0 and nothing after the loop adds a chunk
+	// zero-trip possible iff the condition is a bare `idx < len(x)` / `len(x) > idx` (no `idx == 0 ||` disjunct; a
+	// condition-less do-while loop always runs once) and no emptiness guard anywhere in the function adds a chunk
 	cond := exprStr(loop.Cond)
 	zeroTrip := false
-	if be, ok := unparen(loop.Cond).(*ast.BinaryExpr); ok && be.Op == token.LSS {
-		if c, ok := unparen(be.Y).(*ast.CallExpr); ok && isBuiltinCall(fn, c, "len") {
-			zeroTrip = true
+	if be, ok := unparen(loop.Cond).(*ast.BinaryExpr); ok && (be.Op == token.LSS || be.Op == token.GTR || be.Op == token.NEQ || be.Op == token.LEQ || be.Op == token.GEQ) {
+		for _, side := range []ast.Expr{be.X, be.Y} {
+			ast.Inspect(side, func(y ast.Node) bool {
+				if c, ok := y.(*ast.CallExpr); ok && isBuiltinCall(fn, c, "len") {
+					zeroTrip = true
+				}
+				return true
+			})
 		}
 	}
-	// a guard after the loop: if len(ret) == 0 { ret = append(...) }
+	// an emptiness guard (before or after the loop) whose body appends or returns a chunk: if len(x) == 0 { ... }
 	guard := false
 	fn.inspectBody(func(n ast.Node) bool {
-		if is, ok := n.(*ast.IfStmt); ok && is.Pos() > loop.End() {
-			if strings.Contains(exprStr(is.Cond), "len(") && strings.Contains(exprStr(is.Cond), "== 0") {
-				guard = true
+		if is, ok := n.(*ast.IfStmt); ok {
+			if be, ok := unparen(is.Cond).(*ast.BinaryExpr); ok && be.Op == token.EQL {
+				isLen := func(e ast.Expr) bool {
+					c, ok := unparen(e).(*ast.CallExpr)
+					return ok && isBuiltinCall(fn, c, "len")
+				}
+				isZero := func(e ast.Expr) bool {
+					l, ok := unparen(e).(*ast.BasicLit)
+					return ok && l.Value == "0"
+				}
+				if (isLen(be.X) && isZero(be.Y)) || (isLen(be.Y) && isZero(be.X)) {
+					ast.Inspect(is.Body, func(y ast.Node) bool {
+						switch z := y.(type) {
+						case *ast.CallExpr:
+							if isBuiltinCall(fn, z, "append") {
+								guard = true
+							}
+						case *ast.ReturnStmt:
+							if len(z.Results) == 1 {
+								if _, isLit := unparen(z.Results[0]).(*ast.CompositeLit); isLit {
+									guard = true
+								}
+							}
+						}
+						return true
+					})
+				}
 			}
 		}
 		return true
